@@ -609,7 +609,7 @@ func c16PolicyWiring(c *Ctx) {
 	rule := "C16/policy-wiring"
 	mainFn := c.Fn("cmd/rdpgw", "main")
 	var gw ssa.Value
-	eachInstr(mainFn, func(in ssa.Instruction) {
+	c.eachMainInstr(func(in ssa.Instruction) {
 		if mc, ok := in.(*ssa.MakeClosure); ok {
 			f := mc.Fn.(*ssa.Function)
 			if f.Synthetic != "" && strings.HasPrefix(f.Name(), "HandleGatewayProtocol$bound") && len(mc.Bindings) == 1 {
